@@ -93,19 +93,36 @@ def run(ctx):
         db = ctx.mir(drv)
         calls = [H.strip_generics(tgt or "") for bi, t, tgt in db.calls()]
         ctx.check(MG + "::reset" in calls, R, "MatchGeneratorDriver::reset::delegates", db.file, "the driver resets the match generator")
-        # recycled stores are cleared and refilled with None before entering the pool (both closures)
+        # recycled suffix stores are cleared and refilled with None before entering the pool: at every push site, in
+        # whatever function it lives (a closure, a helper), `x.slots.clear()` then `x.slots.resize(x.slots.capacity(), None)`
+        # precede the push in the same block
         n = 0
-        for fn in (drv, "<%s as ruzstd::encoding::Matcher>::commit_space" % MGD):
-            b = ctx.hir(fn)
-            for cl in hq.find(b["body"], lambda x: x.get("k") == "Closure" and len(x["params"]) == 2):
-                s = H.show(cl["body"])
-                sname = cl["params"][1]["name"]
-                ok = ("%s.slots.clear()" % sname) in s and ("%s.slots.resize(%s.slots.capacity(), Option::None)" % (sname, sname)) in s and \
-                    s.index("%s.slots.clear()" % sname) < s.index("suffix_pool.push(%s)" % sname)
+        crate_ = ctx.crate()
+        for path, b in sorted(crate_.hir.items()):
+            if b.get("body") is None or b.get("inlined_everywhere") or "match_generator" not in path:
+                continue
+            cf = hq.Canon(b, force=True)
+            ix_ = hq.Index(b)
+            for x in hq.find(b["body"], lambda x: x.get("k") == "MethodCall" and x["name"] == "push" and len(x.get("args") or ()) == 1):
+                r = cf(x["recv"]).replace("&mut ", "").replace("(", "").replace(")", "")
+                arg = hq.peel(x["args"][0])
+                # the pool itself, or an alias / parameter of the pool's type
+                if not (r.endswith("self.suffix_pool") or "SuffixStore>" in (hq.peel(x["recv"]).get("ty") or "") or "SuffixStore>" in (x.get("recv_ty") or "")):
+                    continue
                 n += 1
-                ctx.check(ok, R, H.short(fn) + "::recycled-suffix-store-cleared", H.loc(b, cl),
-                          "a recycled suffix store must be emptied (clear + refill with None) before it re-enters the pool", observed=s[:200])
-        ctx.check(n == 2, R, "recycle-closures", "", "two recycling closures expected", observed=n)
+                ok, obs = False, None
+                if arg.get("k") == "Local":
+                    blk = next((a_ for a_ in ix_.ancestors(x) if a_.get("k") == "Block"), None)
+                    end_ = lambda s_: (s_.get("sp") or (s_.get("e") or s_.get("init") or {}).get("sp") or [0, 1 << 60])[1]
+                    prev = [hq.peel(s_.get("e") or {}) for s_ in (blk["stmts"] if blk else ()) if end_(s_) <= x["sp"][0]]
+                    on_x = lambda e_: hq.field_chain(e_)[0].get("k") == "Local" and hq.field_chain(e_)[0].get("lid") == arg["lid"] and hq.field_chain(e_)[1] == ["slots"]
+                    seq = [(p_["name"], [H.show(hq.peel(a_)) for a_ in p_["args"]]) for p_ in prev if p_.get("k") == "MethodCall" and p_["name"] in ("clear", "resize") and on_x(p_["recv"])]
+                    obs = seq
+                    nm = arg.get("name")
+                    ok = [s_[0] for s_ in seq][-2:] == ["clear", "resize"] and seq[-1][1][1:] == ["Option::None"] and seq[-1][1][0].endswith(".slots.capacity()")
+                ctx.check(ok, R, H.short(path) + "::recycled-suffix-store-cleared#%d" % n, H.loc(b, x),
+                          "a recycled suffix store must be emptied (clear + refill with None) before it re-enters the pool", observed=obs)
+        ctx.check(n >= 2, R, "recycle-sites", "", "push sites of the suffix-store pool found", observed=n)
         # a pooled store is only taken with sufficient size and a fresh one starts empty
         sb = ctx.hir("ruzstd::encoding::match_generator::SuffixStore::with_capacity")
         ctx.check("slots: vec::from_elem(Option::None, capacity)" in H.show(sb["body"]) or "Option::None" in H.show(sb["body"]), R,
